@@ -129,7 +129,7 @@ def check_input_gtf(gtf, db, complete_db):
             logger.warning("Remove the output folder and restart IsoQuant without --complete_genedb.")
 
 
-def check_db_sequences(db_filename):
+def check_db_sequences(db_filename, annotation_name=None):
     # A database given directly as --genedb never went through check_input_gtf. The inconsistency that is not reported
     # anywhere else and gives wrong output silently - a feature whose parent lies on another sequence, i.e. a gene or
     # transcript id used on several sequences of a file without gene / transcript records - is looked up in the
@@ -143,8 +143,11 @@ def check_db_sequences(db_filename):
                        (child_id, child_seq, parent_id, parent_seq))
     if inconsistent:
         logger.error("Gene database %s seems to be corrupted (see warnings above): "
-                     "a gene or transcript id is used on several sequences." % db_filename)
-        logger.error("Provide the annotation in GTF format to obtain a corrected version, or fix the ids.")
+                     "a gene or transcript id is used on several sequences." % (annotation_name or db_filename))
+        if annotation_name is None:
+            logger.error("Provide the annotation in GTF format to obtain a corrected version, or fix the ids.")
+        else:
+            logger.error("Fix the ids / Parent attributes of the listed records.")
         exit(-3)
 
 
@@ -173,6 +176,7 @@ def gtf2db(gtf, db, complete_db=False, check_gtf=True):
     # file first and fills the new one over seconds to minutes, so such a run would open a half-built database.
     # Build it under a name of our own and move the complete file into place.
     tmp_db = "%s.%s.tmp" % (db, uuid.uuid4().hex)
+    annotation_name = gtf
     gtf, unpacked = unpack_for_gffutils(gtf, db)
     try:
         # a transcript record of a GTF file may be typed mRNA (check_gtf_duplicates counts it as a transcript record, GeneInfo
@@ -184,6 +188,11 @@ def gtf2db(gtf, db, complete_db=False, check_gtf=True):
         gffutils.create_db(gtf, tmp_db, force=True, keep_order=True, merge_strategy='error',
                            sort_attribute_values=True, disable_infer_transcripts=complete_db,
                            disable_infer_genes=complete_db, id_spec=id_spec)
+        if check_gtf:
+            # what the text check cannot see (a GFF3 record whose Parent lies on another sequence) is looked up in the
+            # finished database, before it is moved into place and recorded in the per-user cache: the same database
+            # given as --genedb next time is refused by this very check
+            check_db_sequences(tmp_db, annotation_name=annotation_name)
         os.replace(tmp_db, db)
     finally:
         if os.path.exists(tmp_db):
